@@ -50,7 +50,7 @@ structure St where
   regs : List (Nat × Sk) := []
   sregs : List (Nat × SReg) := []
   /-- tree registers whose cached `current_max` is NOT the largest hash they hold (a sketch made by the
-  builder without the field, and its clones): register ↦ cached value -/
+  builder with an explicit stale `.current_max(..)`, and its clones): register ↦ cached value -/
   cms : List (Nat × Nat) := []
 
 def getR {α : Type} (l : List (Nat × α)) (i : Nat) : Option α := (l.find? (·.1 == i)).map (·.2)
@@ -340,10 +340,11 @@ def stepCore (st : St) (capi : Bool) (ws : List String) : St × Resp :=
       ({ st with regs := setR st.regs r1.toNat! a, sregs := setR st.sregs r1.toNat! sa,
                  cms := cmSet st.cms r1.toNat! a (cmGet st r2.toNat! a) }, { model := "ok" })
     | _, _ => (st, { model := "bad-reg" })
-  | ["build", r, ctor, maxHash, num, ksize, mol, seed, track, items] =>
+  | "build" :: r :: ctor :: maxHash :: num :: ksize :: mol :: seed :: track :: items :: cmArg =>
     -- a sketch handed over ready-made (builder / JSON document): the state is what was given; a JSON
     -- document is sorted by (hash, abundance) on the way in and loses `num` next to a ceiling; the
-    -- tree builder `b` leaves `current_max` at 0
+    -- tree builder derives `current_max` from the hashes unless it is given explicitly (`bc … cm`:
+    -- taken as it is, possibly stale)
     let r := r.toNat!
     let tr := track == "1"
     let ps := if ctor == "js" then sortPairs (parsePairs items) else parsePairs items
@@ -353,7 +354,9 @@ def stepCore (st : St) (capi : Bool) (ws : List String) : St × Resp :=
     let sr : SReg := { num := num.toNat!, maxHash := maxHash.toNat!, ksize := ksize.toNat!,
                        seed := seed.toNat!, mol := mol, track := tr, src := parsePairs items }
     ({ st with regs := setR st.regs r sk, sregs := setR st.sregs r sr,
-               cms := if st.kind == .tree && ctor == "b" then cmSet st.cms r sk 0 else st.cms.filter (·.1 != r) },
+               cms := match cmArg with
+                 | [cm] => if st.kind == .tree && ctor == "bc" then cmSet st.cms r sk cm.toNat! else st.cms.filter (·.1 != r)
+                 | _ => st.cms.filter (·.1 != r) },
      resp st sk.obs sr.obs)
   | ["newdef", r] =>
     let sr : SReg := { num := 1000, maxHash := 0, ksize := 21, seed := 42, mol := "dna", track := false, src := [] }
